@@ -300,8 +300,8 @@ func checkC11(cx *Ctx, r *Report) {
 		}
 		r.checkSources("R-VFG", e.short+":WantAuthnRequestsSigned", w.InstrPos(sites[0]), ls, []string{"param:*conf.WantAuthRequestsSigned", "param:*conf.IDPConfig.WantAuthRequestsSigned", "param:*.WantAuthRequestsSigned"}, []string{"param:*.WantAuthRequestsSigned"}, true)
 	}
-	r.Min("R-VFG", 20)
-	r.Min("R-SIB", 8)
+	r.Min("R-VFG", 10)
+	r.Min("R-SIB", 5)
 }
 
 // checkEndpointFuncs: Relative() = relativeEndpoint(e.path); Absolute(host) = e.url if set, else
